@@ -29,6 +29,8 @@ func TestC35(t *testing.T) {
 	r.Require("ok@quitSideChain", r.N(100, 1500))
 	r.Assume("'request by its registered owner' = the request transaction was signed by the address registered as owner of that chain id when the request was made (DESIGN §8, weaker reading); " +
 		"a removal/update applied later on behalf of a previous owner's still-pending request is recorded (registry_*_on_request_of_previous_owner), not judged here (C33 judges consumed requests)")
+	r.Require("register_approvals_while_id_registered_to_the_applicant", r.N(30, 400))
+	r.Require("register_approvals_while_id_registered_to_another_owner", r.N(30, 400))
 	r.Require("registration_request_for_free_id_ok", r.N(200, 3000))
 	r.Assume("'registered at most once at a time' is also applied to requests: a registerSideChain call must not succeed for an id that is registered at that moment " +
 		"(otherwise the id is in the process of being registered twice; after 175c66d the approval would be refused, so the registry itself stays intact)")
